@@ -20,6 +20,14 @@ import (
 // sp=1: Sent => exactly one PUBLISH DUP=1 same id; Recd => PUBREL, no PUBLISH; Done =>
 // nothing; old epoch => nothing. DUP on the first transmission of a Queued message and
 // the moment a Queued message is transmitted are unspecified (DESIGN §3.2).
+// A message that was accepted for the session but never transmitted (held back behind a's
+// Receive Maximum, published while a was offline) is followed through session resumption
+// too: WHEN it is transmitted is left to flow control, but if it is still untransmitted
+// after the closure's reconnect, a acknowledges everything it received, resumes the
+// session once more and acknowledges again; a message still untransmitted then (and not
+// reported as dropped) has left the session: key
+// c09:queued-message-gone-after-session-resumption:<after-deferred-release|after-failed-write|deferred-behind-receive-maximum|published-while-offline|other>
+// (the first two shapes are consequences of the known deferred-release defect).
 // Fault scenarios ("wf=1"): op failnext breaks a's link in the broker->client direction at
 // any quiescent point (the broker's next write to the connection fails, a sees nothing
 // more, the connection is dropped after that step). A PUBREC the broker processed
@@ -35,6 +43,7 @@ func init() {
 		c.Rep.Assumption("one client action at a time, broker run to quiescence under the deterministic default schedule (sequential histories)")
 		c.Rep.Assumption("state = reflective dump of *Server plus reference-model state and pool counters; histories merged only if byte-identical")
 		c.Rep.Assumption("write faults: one failing conn.Write per history (the first write after the fault point), the client sees nothing written after it and drops the connection at the end of that step; a message whose PUBLISH was lost that way counts as queued only")
+		c.Rep.Assumption("a queued, never transmitted message need not be transmitted right after CONNACK; it is judged lost only if it is still untransmitted after two session resumptions with everything received acknowledged in between and afterwards")
 		c.Rep.Assumption("DUP on the first transmission of a message that was only queued, and the time a queued message is first transmitted, are unspecified for C09")
 		var sts []*explore.BFSStats
 		if c.Quick() {
@@ -51,6 +60,6 @@ func init() {
 			sts = append(sts, explore.RunBFS(c, "c09", "v=5,rm=1,pubs=3,qos=12,conns=2,take=1,wf=1,closure=reconnect", 0, 2*time.Minute))
 			sts = append(sts, explore.RunBFS(c, "c09", "v=5,rm=8,pubs=2,qos=2,conns=2,take=1,wf=2,closure=reconnect", 0, 2*time.Minute))
 		}
-		qosFold(c, sts, "redeliveries_expected", "pubrel_resends_expected", "takeovers", "deferred_releases", "pubrel_write_faults")
+		qosFold(c, sts, "redeliveries_expected", "pubrel_resends_expected", "takeovers", "deferred_releases", "pubrel_write_faults", "queued_at_session_resumption", "deferred_at_session_resumption")
 	})
 }
